@@ -20,6 +20,8 @@ struct Lsp {
     next_id: u64,
     /// number of token types in the legend the server advertised in its initialize response
     legend_len: u64,
+    /// the position encoding the server announced (absent = UTF-16, as the protocol says)
+    utf8_positions: bool,
 }
 
 impl Lsp {
@@ -65,9 +67,11 @@ impl Lsp {
                 }
             }
         });
-        let mut l = Lsp { child, stdin, rx, next_id: 1, legend_len: 8 };
+        let mut l = Lsp { child, stdin, rx, next_id: 1, legend_len: 8, utf8_positions: false };
         let caps = if flavor == 0 {
             json!({})
+        } else if flavor == 2 {
+            json!({"general": {"positionEncodings": ["utf-8", "utf-16"]}})
         } else {
             json!({"textDocument": {"semanticTokens": {"requests": {"full": true}, "tokenTypes": ["variable", "string", "number", "operator", "comment", "keyword"], "tokenModifiers": [], "formats": ["relative"]}}})
         };
@@ -78,6 +82,7 @@ impl Lsp {
                 if let Some(t) = r["result"]["capabilities"]["semanticTokensProvider"]["legend"]["tokenTypes"].as_array() {
                     l.legend_len = t.len() as u64;
                 }
+                l.utf8_positions = r["result"]["capabilities"]["positionEncoding"] == json!("utf-8");
             }
         }
         l.notify("initialized", json!({}))?;
@@ -302,6 +307,11 @@ fn documents(thorough: bool) -> (Vec<String>, Vec<String>) {
         "10 PRINT \"日本語\" + 1", "10 REM 価格 € — x\n20 X$ = 1", "10 DATA 日本, \"€\", 3: PRINT 1 +", "10 PRINT \"“q”\";Z€", "10 PRINT \"末尾", "10 A$ = \"ꙮ\": B = A$ + \"\u{ffff}\" + 1",
     ];
     docs.extend(non_ascii.iter().map(|s| s.to_string()));
+    // documents with more than a hundred messages
+    for k in [99usize, 100, 101, 150, 260] {
+        docs.push(format!("{}9000 PRINT QQ", "PRINT 1\n".repeat(k)));
+        docs.push(format!("{}9000 PRINT \"\u{e9}\" + 1", "10 X$ = 1\n".repeat(k)));
+    }
     let core: Vec<String> = menu
         .iter()
         .take(22)
@@ -357,6 +367,16 @@ fn run_history(lsp: &mut Option<Lsp>, bin: &str, uri: &str, hist: &[Msg], flavor
                     None => Err("no response to semanticTokens/full".into()),
                 }
             }
+            Msg::Open(t) if l.utf8_positions && !t.is_ascii() => {
+                // the server announced UTF-8 positions (it may, when the client offers them): this
+                // driver only decodes UTF-16, so only liveness is checked for non-ASCII text
+                latest = t.clone();
+                l.notify("textDocument/didOpen", json!({"textDocument":{"uri":uri,"languageId":"abasic","version":1,"text":t}}))?;
+                match l.wait(|x| x["method"] == "textDocument/publishDiagnostics" && x["params"]["uri"] == uri, 8000) {
+                    Some(_) => Ok(None),
+                    None => Err("no diagnostics after didOpen".into()),
+                }
+            }
             Msg::Open(t) => {
                 latest = t.clone();
                 l.notify("textDocument/didOpen", json!({"textDocument":{"uri":uri,"languageId":"abasic","version":1,"text":t}}))?;
@@ -380,6 +400,13 @@ fn run_history(lsp: &mut Option<Lsp>, bin: &str, uri: &str, hist: &[Msg], flavor
                 match l.wait(|x| x["method"] == "textDocument/publishDiagnostics" && x["params"]["uri"] == uri, 8000) {
                     Some(d) => Ok(check_diagnostics(&latest, &d)),
                     None => Err("no diagnostics after didChange".into()),
+                }
+            }
+            Msg::Tokens if l.utf8_positions && !latest.is_ascii() => {
+                let id = l.request("textDocument/semanticTokens/full", json!({"textDocument":{"uri":uri}}))?;
+                match l.wait(|x| x["id"] == json!(id), 8000) {
+                    Some(_) => Ok(None),
+                    None => Err("no response to semanticTokens/full".into()),
                 }
             }
             Msg::Tokens => {
@@ -481,7 +508,7 @@ pub fn run(thorough: bool) -> Report {
             let mut exits = vec![];
             for (hi, h) in chunk.iter().enumerate() {
                 let uri = format!("file:///c{}h{}.bas", ci, hi);
-                let (n, p) = run_history(&mut lsp, &bin, &uri, h, (ci % 2) as u8);
+                let (n, p) = run_history(&mut lsp, &bin, &uri, h, (ci % 3) as u8);
                 sent += n;
                 if let Some((sig, detail, crashed)) = p {
                     if crashed {
